@@ -61,14 +61,28 @@ def _word_order(ctx, cm_, cls, ordering, nwords=3, busword=8):
     except Exception as ex:
         ctx.need(False, f"{cls}.do_finalize cannot be interpreted: {ex}")
     csrs = [o for o in it.created if o.cls == "CSR"]
+    reg = me.get("simple_csrs")
+    if not (isinstance(reg, list) and len(reg) == len(csrs) and {id(x) for x in reg} == {id(x) for x in csrs}):
+        return None, False
+    # the order that matters is the one of self.simple_csrs (= ascending bus addresses), however the list was built ...
     order = []
-    for o in csrs:
+    for o in reg:
         nm = o.args[1] if len(o.args) > 1 else o.kwargs.get("name")
         if not (isinstance(nm, str) and nm.startswith("r") and nm[1:].isdigit()):
             return None, False
         order.append(int(nm[1:]))
-    reg = me.get("simple_csrs")
-    return order, isinstance(reg, list) and len(reg) == len(csrs) and all(a is b for a, b in zip(reg, csrs))
+    # ... and the word object the statements after the loop still refer to (its strobes become the register's) is the last-address one
+    tail_ok = True
+    loops = [st for st in fn.body if isinstance(st, ast.For)]
+    if loops:
+        k = fn.body.index(loops[-1])
+        stored = {x.id for x in ast.walk(loops[-1]) if isinstance(x, ast.Name) and isinstance(x.ctx, ast.Store)}
+        later = {x.id for st in fn.body[k + 1:] for x in ast.walk(st) if isinstance(x, ast.Name) and isinstance(x.ctx, ast.Load)}
+        for nm_ in stored & later:
+            v_ = it.env.get(nm_)
+            if isinstance(v_, pyconst.Obj) and v_.cls == "CSR" and reg and v_ is not reg[-1]:
+                tail_ok = False
+    return order, tail_ok
 
 
 def bank_decode(ctx, rid, fx=None):
@@ -124,9 +138,9 @@ def word_loop_order(ctx, rid, classes=("CSRStorage", "CSRStatus")):
         wo = {o: _word_order(ctx, cm_, cls, o) for o in ("big", "little")}
         ok = wo["big"] == ([2, 1, 0], True) and wo["little"] == ([0, 1, 2], True)
         ctx.ob(rid, CSR, f"{cls}.do_finalize", "word loop: MSW first for big, LSW first for little; every word registered", ok,
-               "" if ok else f"for a 3-word register the simple CSRs are created (= mapped to ascending addresses) in word order {wo['big'][0]} for "
-                             f"ordering='big' and {wo['little'][0]} for 'little' (registered in that order: {wo['big'][1]}, {wo['little'][1]}): "
-                             f"the strobes taken from the word iterated last no longer belong to the word at the last address", fn)
+               "" if ok else f"for a 3-word register self.simple_csrs (= ascending bus addresses) holds the words in order {wo['big'][0]} for "
+                             f"ordering='big' and {wo['little'][0]} for 'little'; the word object left after the loop is the last-address one: "
+                             f"{wo['big'][1]} / {wo['little'][1]} -- the register's strobes must come from the word at the last address", fn)
 
 
 def storage_word_slices(ctx, rid, fxs=None):
